@@ -776,6 +776,11 @@ func genSync(rng *rand.Rand, n int, emit func(string)) {
 							occ++
 						}
 					}
+					if occ > 0 && (strings.HasPrefix(log[j], "delete:pod:") || strings.HasPrefix(log[j], "create:pod:")) {
+						// the second delete / create of one name in one sync (Parallel with the legacy boundary): the
+						// reconcile model keys pod-control faults by (verb, ordinal) only, so it cannot place this one
+						continue
+					}
 					f := syFault{key: log[j], occ: occ, kind: pick(rng, kinds...)}
 					c.faults = append(c.faults, f)
 					if f.kind == "conflict" && rng.Intn(2) == 0 { // a burst of conflicts on one call
